@@ -427,7 +427,9 @@ fn duplicate_case(ctx: &Ctx, tape: &[u8], rec: &Rec) -> Verdict {
     let text = p.files[i].r.src[a..b].to_string();
     let sep = if t.chance(128) { "\n// é 日本\n" } else { "\n" };
     let at = p.files[j].r.src.len() + sep.len();
-    p.files[j].r.src = format!("{}{sep}{text}\n", p.files[j].r.src);
+    // half of the time the copied definition is the very end of the file (no final newline)
+    let tail = if t.chance(128) { "\n" } else { "" };
+    p.files[j].r.src = format!("{}{sep}{text}{tail}", p.files[j].r.src);
     p.named = (0..p.files.len()).collect();
     if t.chance(128) {
         p.named.reverse();
@@ -479,9 +481,9 @@ fn duplicate_case(ctx: &Ctx, tape: &[u8], rec: &Rec) -> Verdict {
         if seen {
             rec.class("duplicate_definition_errors_checked");
         }
-        // (which of the two definitions is analysed further is not determined, so the displayed
-        // findings of the binary are not compared here)
-        Ok(())
+        // positions displayed by the binary and written to SARIF (the definition that is kept is the
+        // first one in file order since fix eb34e01 / 199e91d, so the reference agrees with the binary)
+        check_binary_positions(ctx, &named, &dir, &reference.reports, &reference.files, rec)
     })()
     .map_err(|b| if b.rendered.is_empty() { b.rendered(p.describe()) } else { b });
     let _ = std::fs::remove_dir_all(&dir);
